@@ -72,6 +72,13 @@ func checkC13(r *Run) int {
 			ts.ShortDefaultPkg = "types"
 			ts.Label += "|same-base-name-short"
 			cases = append(cases, ts)
+			// the proto file carries a go_package option and lives in a sub-directory (its Go import path is not ".")
+			gp := space.Variant(c, false, true, "none")
+			gp.Group, gp.Variant = c.Label, "separate/go_package"
+			gp.File.GoPackage = "example.com/acme/api/types;apitypes"
+			gp.ProtoDir = "api/v1/"
+			gp.Label += "|go_package"
+			cases = append(cases, gp)
 			// dotted proto package: protoc-gen-gogo names the struct package <id>_v1; target package with an underscore
 			dp := space.Variant(c, false, true, "none")
 			dp.Group, dp.Variant = c.Label, "separate/dotted-proto-package"
